@@ -37,6 +37,9 @@ structure SlotStep (c : Counters) (tid : Nat) (s s' : State) (ni : Nat) : Prop w
   st : (s'.slots.getD tid Slot.empty).status = .inactive ∨
        (s'.slots.getD tid Slot.empty).status = .alive ∨
        (s'.slots.getD tid Slot.empty).status = .initializing
+  /-- a slot whose track survived the step is not touched -/
+  aliveSame : (s.slots.getD tid Slot.empty).status = .alive →
+    s'.slots.getD tid Slot.empty = s.slots.getD tid Slot.empty
 
 theorem processSlot_inv {c : Counters} {s : State} {tid ni : Nat} (hC : Core s ni)
     (htid : tid < s.slots.length) (hok : (s.slots[tid]).endOk)
@@ -57,7 +60,8 @@ theorem processSlot_inv {c : Counters} {s : State} {tid ni : Nat} (hC : Core s n
     have : processSlot c s tid = s := by
       unfold processSlot; simp only [hget]; rw [if_pos hin]
     rw [this]
-    refine ⟨?_, rfl, rfl, rfl, rfl, rfl, fun _ _ => rfl, ⟨rfl, rfl, rfl, rfl, rfl⟩, ?_, ?_⟩
+    refine ⟨?_, rfl, rfl, rfl, rfl, rfl, fun _ _ => rfl, ⟨rfl, rfl, rfl, rfl, rfl⟩, ?_, ?_,
+      fun _ => rfl⟩
     · rw [hget]; simp [qOf, hact]; exact hC
     · rw [hget]; simp [keepOf, hact, hin]
     · rw [hget]; simp [hin]
@@ -128,7 +132,12 @@ theorem processSlot_inv {c : Counters} {s : State} {tid ni : Nat} (hC : Core s n
         hcoreL htid' (y := { y with status := .inactive }) (by rw [hyget]; exact hyact)
         (by simp [Slot.active]) rfl rfl rfl rfl
         (by rw [hyget]) rfl
-      refine ⟨?_, fI.cfg, by simp; exact fI.len, fI.ilen, fI.tlen, fI.plen, ?_, fI.frame, ?_, ?_⟩
+      refine ⟨?_, fI.cfg, by simp; exact fI.len, fI.ilen, fI.tlen, fI.plen, ?_, fI.frame, ?_, ?_,
+        ?_⟩
+      rotate_right
+      · intro hal
+        rw [hget] at hal
+        rw [← hyx, hrel.2] at hal; cases hal
       · rw [hget]; exact hcoreR
       · intro j hj
         simp only
@@ -146,7 +155,21 @@ theorem processSlot_inv {c : Counters} {s : State} {tid ni : Nat} (hC : Core s n
     case neg =>
       rw [if_neg hrel]
       refine ⟨by rw [hget]; exact hcoreL, fI.cfg, fI.len, fI.ilen, fI.tlen, fI.plen, fI.others,
-        fI.frame, ?_, ?_⟩
+        fI.frame, ?_, ?_, ?_⟩
+      rotate_right
+      · intro hal
+        rw [hget] at hal
+        rw [hyD, hget]
+        apply hy0
+        cases hi : l.initialized with
+        | false => rfl
+        | true =>
+          rw [hi] at fini
+          have : allowedOf s.cfg.order x = true := by
+            cases h : allowedOf s.cfg.order x with
+            | true => rfl
+            | false => rw [h] at fini; simp at fini
+          simp [allowedOf, hal] at this
       · rw [hyD, hget, hyact]
         by_cases hi : l.initialized = true
         · rw [hi] at fini
